@@ -188,16 +188,18 @@ Blk(c, s) ==
       [] s.stage = "Quiets"       -> QuietsBlk(c, s)
 
 (***************************************************************************)
-(* The deterministic stream of a configuration (used by trace validation). *)
+(* The deterministic stream of a configuration (used by trace validation), *)
+(* together with the set of branches "Stage:label" taken on the way.       *)
 (* fuel bounds the number of blocks: a model that fails to reach Done      *)
 (* answers <<-1>>, which is not a stream of moves.                         *)
 (***************************************************************************)
-RECURSIVE RunFrom(_, _, _)
-RunFrom(c, s, fuel) ==
-    IF s.stage = "Done" THEN s.out
-    ELSE IF fuel = 0 THEN <<-1>>
-    ELSE RunFrom(c, Blk(c, s).st, fuel - 1)
-ModelOutput(c) == RunFrom(c, InitState, 2 * (Len(c.caps) + Len(c.quiets)) + 16)
+RECURSIVE RunFrom(_, _, _, _)
+RunFrom(c, s, fuel, labs) ==
+    IF s.stage = "Done" THEN [out |-> s.out, labs |-> labs]
+    ELSE IF fuel = 0 THEN [out |-> <<-1>>, labs |-> labs]
+    ELSE LET r == Blk(c, s) IN RunFrom(c, r.st, fuel - 1, labs \cup {s.stage \o ":" \o r.lab})
+RunFull(c) == RunFrom(c, InitState, 2 * (Len(c.caps) + Len(c.quiets)) + 16, {})
+ModelOutput(c) == RunFull(c).out
 
 (***************************************************************************)
 (* The state machine                                                       *)
@@ -252,6 +254,7 @@ BBadExhLoud     == stage = "BadCaptures" /\ Take("exhL")
 BScoreQ         == stage = "ScoreQuiets" /\ Take("score")
 BQuietsYield    == stage = "Quiets" /\ Take("yield")
 BQuietsExh      == stage = "Quiets" /\ Take("exh")
+BDone           == stage = "Done" /\ UNCHANGED vars   \* next() keeps answering None
 
 Next ==
     \/ BBestYield \/ BBestNone \/ BGenCaps
@@ -263,6 +266,7 @@ Next ==
     \/ BCMNoneB \/ BCMMissB \/ BCMSkipB \/ BCMYieldB
     \/ BBadYield \/ BBadExh \/ BBadExhLoud
     \/ BScoreQ \/ BQuietsYield \/ BQuietsExh
+    \/ BDone       \* so that with deadlock checking on, a branch without an action is reported
 
 ActionNames == <<"BBestYield", "BBestNone", "BGenCaps", "BGoodYield", "BGoodPark", "BGoodParkLoud",
     "BGoodExh", "BGoodExhLoud", "BGenQuiets", "BK1None", "BK1Miss", "BK1Skip", "BK1Yield", "BK2None",
